@@ -5,6 +5,10 @@ from ..engines import jsonpairs as J
 
 
 def run(ctx):
+    # language-level slips in the modules the property is anchored in (engine Y)
+    from ..engines import gotchas as GY
+    GY.run(ctx, ('isomorphism', 'specification', 'strategies.rule'))
+    ctx.floor("Y", 1)
     ctx.extra["explanation"] = (
         "static analysis (ast, no execution) of isomorphism.py: the matcher's permutation convention "
         "(which specification's child position is the subscript and which the entry) agrees with the "
